@@ -28,7 +28,9 @@ def regions_pool(np):
     small = [[30, 30], [60, 30], [60, 60], [30, 60]]
     far = [[200, 10], [260, 10], [260, 60], [200, 60]]
     over = [[90, 20], [170, 20], [170, 100], [90, 100]]
-    return {'square': sq, 'L': ell, 'U': u, 'nested': small, 'far': far, 'overlapping': over}
+    # a frame (a box with a hole) traced as ONE self-touching ring: not a valid polygon; its convex hull covers the hole
+    frame = [[10, 10], [110, 10], [110, 110], [10, 110], [10, 10], [35, 35], [35, 85], [85, 85], [85, 35], [35, 35]]
+    return {'square': sq, 'L': ell, 'U': u, 'nested': small, 'far': far, 'overlapping': over, 'frame': frame}
 
 
 def lines_pool():
@@ -42,6 +44,7 @@ def lines_pool():
     out += [[[15, 60], [80, 60], [70, 64], [105, 64]], [[15, 60], [60, 60], [50, 70], [105, 70]]]
     # three-point baselines that are straight up to float round-off (what rotating a page forth and back leaves behind): GEOS
     # may return the intersection of such a line with a polygon that CONTAINS it as two touching pieces
+    out += [[[45, 60], [75, 60]]]        # lies in the hole of the frame region (and inside the square / the U's gap)
     out += [[[15, 60], [60, 60.00000000000006], [105, 60]], [[15.000000000000002, 45.00000000000001], [60.00000000000001, 45.00000000000001], [105.00000000000001, 45.000000000000014]],
             [[15, 59.99999999999999], [59.99999999999999, 60], [104.99999999999999, 59.99999999999999]]]
     return out
@@ -91,10 +94,16 @@ def check_assign(np, sg, layout, helpers, region_names, line_idx):
             if inter.geom_type == 'MultiLineString':
                 import shapely.ops
                 inter = shapely.ops.linemerge(inter)      # pieces that merely touch are one piece
-            if rp.buffer(-1e-9).contains(ls) and ls.length > 2:
+            exact0 = sg.Polygon(r.polygon)
+            if not exact0.is_valid:
+                exact0 = exact0.buffer(0)
+            if exact0.buffer(-1e-9).contains(ls) and ls.length > 2:
                 if len(placed) != 1 or np.asarray(placed[0].baseline).shape != b.shape or np.abs(np.asarray(placed[0].baseline) - b).max() > 1e-9:
                     bad.append(('inside-placed-unchanged', 'baseline %d lies inside region %s but was placed as %r' % (i, r.id, [np.asarray(p.baseline).tolist() for p in placed])))
-            if not rp.intersects(ls) and placed:
+            exact = sg.Polygon(r.polygon)
+            if not exact.is_valid:
+                exact = exact.buffer(0)       # the area the ring really encloses (a self-touching frame keeps its hole)
+            if not exact.intersects(ls) and placed:
                 bad.append(('untouched-never-placed', 'baseline %d does not touch region %s but was placed' % (i, r.id)))
             if inter.geom_type == 'MultiLineString' and placed:
                 longest = max(g.length for g in inter.geoms)
@@ -168,7 +177,7 @@ def _chunk(items):
 
 
 def plans(thorough):
-    names = list(regions_pool(None) if False else ['square', 'L', 'U', 'nested', 'far', 'overlapping'])
+    names = list(regions_pool(None) if False else ['square', 'L', 'U', 'nested', 'far', 'overlapping', 'frame'])
     nl = len(lines_pool())
     out = []
     for rn in [()] + [(n,) for n in names] + list(itertools.combinations(names, 2)) + ([tuple(names)] if True else []):
